@@ -54,7 +54,9 @@ fn one_case(seed: u64, i: u64) -> CaseOut {
             if let Item::Stmt { stmt, .. } = it {
                 match stmt {
                     Stmt::Alias(0x25) => {
-                        *stmt = Stmt::Fill(0xF025);
+                        // (in half of them a TRAP x25 with bits [11:8] set, xF125 ... xFF25: the vector is the low
+                        // byte, so these halt as well, and every place that asks "is this a HALT" has to agree)
+                        *stmt = Stmt::Fill(if rng.bool() { 0xF025 } else { 0xF025 | ((1 + rng.below(15) as i32) << 8) });
                         n += 1;
                     }
                     Stmt::Ret if rng.bool() => {
@@ -71,7 +73,7 @@ fn one_case(seed: u64, i: u64) -> CaseOut {
     }
     if rng.chance(1, 12) {
         // an RTI where a HALT stood: lace has no interrupts to return from and gives up there - under the debugger too
-        if let Some(Item::Stmt { stmt, .. }) = built.program.items.iter_mut().find(|it| matches!(it, Item::Stmt { stmt: Stmt::Alias(0x25) | Stmt::Fill(0xF025), .. })) {
+        if let Some(Item::Stmt { stmt, .. }) = built.program.items.iter_mut().find(|it| matches!(it, Item::Stmt { stmt: Stmt::Alias(0x25) | Stmt::Fill(0xF025..=0xFFFF), .. } if !matches!(it, Item::Stmt { stmt: Stmt::Fill(w), .. } if *w & 0xFF != 0x25))) {
             *stmt = if rng.bool() { Stmt::Rti } else { Stmt::Fill(0x8000) };
             out.class("rti_reached_under_the_debugger");
         }
@@ -120,7 +122,7 @@ fn one_case(seed: u64, i: u64) -> CaseOut {
         // pause at a run-time breakpoint, plant a HALT under the PC, then try to resume
         cmds.push(Cmd::BreakAdd(img.origin().wrapping_add(1 + rng.below(img.words.len().max(2) as u64 - 1) as u16)));
         cmds.push(Cmd::Continue);
-        cmds.push(Cmd::MoveMemLoc(crate::refdbg::Loc::Pc(0), 0xF025));
+        cmds.push(Cmd::MoveMemLoc(crate::refdbg::Loc::Pc(0), if rng.chance(2, 3) { 0xF025 } else { 0xF025 | ((1 + rng.below(15) as u16) << 8) }));
         cmds.push(match rng.below(4) {
             0 => Cmd::Continue,
             1 => Cmd::Step,
@@ -217,6 +219,8 @@ fn one_case(seed: u64, i: u64) -> CaseOut {
                 .unwrap_or(sess.init_mem[s.pc as usize]);
             if w == 0xF025 {
                 out.class("parked_on_halt:resume");
+            } else if w >> 12 == 0xF && w & 0xFF == 0x25 {
+                out.class("parked_on_halt_with_bits_11_8_set:resume");
             }
         }
     }
@@ -226,7 +230,7 @@ fn one_case(seed: u64, i: u64) -> CaseOut {
             out.class("breakpoints_removed_after_several_hits");
         }
     }
-    if cmds.iter().any(|c| matches!(c, Cmd::MoveMemLoc(_, 0xF025))) {
+    if cmds.iter().any(|c| matches!(c, Cmd::MoveMemLoc(_, w) if w >> 12 == 0xF && w & 0xFF == 0x25)) {
         out.class("halt_planted_at_breakpoint");
     }
     if sess.snaps.iter().any(|s| s.pc == 0xFE00 && s.fetches > 0) && matches!(built.ending, Ending::JumpHigh) {
